@@ -630,8 +630,13 @@ var intrinsics = map[string]intrinsicFn{
 			}
 			return int(concreteJSONInt(cv))
 		}
+		if v, ok := i.path.choices[name]; ok {
+			return v
+		}
 		t := i.path.inputInt(name, IntC(0), IntC(n-1))
-		return int(i.path.concretize(t, "verifChoice "+name).Int64())
+		v := int(i.path.concretize(t, "verifChoice "+name).Int64())
+		i.path.choices[name] = v
+		return v
 	},
 	"verifConcrete": func(i *interpreter, a []value) value {
 		return i.concreteInt(a[0], "verifConcrete")
